@@ -506,6 +506,18 @@ def handover(ctx, rule):
             tok_vec = q.root_local(q.arg_expr(b, t, 0))
     ctx.check(tok_vec is not None and q.root_local(call.args[1]) == tok_vec, rule, fn, "new#1:tokens", "the token vector passed is the one the segments were pushed to")
     ctx.check(q.wild("Iterator::collect(Iterator::map(IntoIterator::into_iter(Option::unwrap_or_default(arg1.names)),closure:*))", a[2]) or q.wild("Iterator::collect(Iterator::map(IntoIterator::into_iter(Option::unwrap_or_default(arg1.names)),fn:*))", a[2]), rule, fn, "new#2:names", "names come from the document's names", detail=a[2])
+    # ... each entry converted leniently but faithfully: a string as it is, a number by its decimal text, anything else empty
+    cvb = q.callable_body(call.args[2])  # the closure or function mapped over the document's names
+    conv = [cvb] if cvb is not None else []
+    P = {q.first_param(cvb): "v"} if cvb is not None else {}
+    ok_conv = len(conv) == 1 and sorted(sh for sh, _, _ in q.def_shapes(conv[0], 0, P)) == sorted(["''", "string(v)", "ToString::to_string(number(v))"])
+    if ok_conv:
+        for sh, site, _ in q.def_shapes(conv[0], 0, P):
+            want_v = {"string(v)": 3, "ToString::to_string(number(v))": 2}.get(sh)
+            if want_v is not None:
+                ok_conv = ok_conv and has_fact(conv[0], site[0], P, ("variant_in", "v", (want_v,)))
+    ctx.check(ok_conv, rule, fn, "names:conversion", "a name that is a JSON string is taken as it is, a number by serde_json's own decimal text, anything else reads as the empty name",
+              detail=str([sorted(sh for sh, _, _ in q.def_shapes(c, 0, P)) for c in conv])[:300])
     ctx.check(a[3] == "Iterator::collect(Iterator::map(IntoIterator::into_iter(Option::unwrap_or_default(arg1.sources)),fn:Option::unwrap_or_default))", rule, fn, "new#3:sources",
               "sources come from the document's sources, null entries read as empty names", detail=a[3])
     ctx.check(a[4] == "Option::map(arg1.sources_content,\u03bb(Iterator::collect(IntoIterator::into_iter(p1))))", rule, fn, "new#4:contents", "contents come from sourcesContent", detail=a[4])
@@ -622,6 +634,26 @@ def field_coverage(ctx, rule):
         and q.shape(lit[0].field("sm")) == "try(decoder::decode_regular(arg1))"
     ctx.check(ok, rule, h.path, "hermes:retains-raw", "the Hermes decoder keeps the raw x_facebook_sources verbatim next to the regular map")
     encrules.hermes_payload(ctx, rule)
+
+
+def rejections_exact(ctx, rule):
+    """decode_regular fails for exactly the reviewed reasons: the three structural errors it constructs itself and
+    whatever the segment parser / the range-mapping reader report. Any further error exit rejects documents the format
+    allows (a "sanity check" on positions, a new limit) and needs review."""
+    import re as _re
+    b = ctx.body(DEC)
+    fn = b.path
+    from rules.common import error_exits
+    errs = error_exits(b)
+    allowed = {"construct:BadSegmentSize", "construct:BadSourceReference", "construct:BadNameReference", "propagate:decoder::decode_rmi", "propagate:vlq::parse_vlq_segment_into"}
+    extra = sorted(set(errs) - allowed)
+    ctx.check(not extra, rule, fn, "rejections:exact", "decode_regular rejects a document only for a bad segment size, a bad source or name reference, or what the VLQ / range-mapping readers report", detail=str(extra))
+    ctx.check(allowed <= set(errs), rule, fn, "rejections:present", "each reviewed rejection is still there", detail=str(sorted(allowed - set(errs))))
+    # the range-mapping reader: only the foreign-digit error
+    r = ctx.body("decoder::decode_rmi")
+    rex = error_exits(r)
+    rerrs, rres = sorted(x.split(':', 1)[1] for x in rex if x.startswith('construct:')), sorted(x for x in rex if x.startswith('propagate:'))
+    ctx.check(rerrs == ["InvalidBase64"] and not rres, rule, r.path, "rmi:rejections", "the range-mapping reader rejects only characters outside the base64 alphabet", detail=str(rerrs) + str(rres)[:100])
 
 
 def hermes_regular_part(ctx, rule):
